@@ -15,6 +15,22 @@ inductive PState
   | tailCR | tailLF
   deriving DecidableEq, Repr
 
+/-- all states, in the order of the Go enum (nbhttp/state.go); `PState.num` is the value of the Go constant.
+    Tied to the code by `Lemmas/HttpTables.lean` against the regenerated `Generated/HttpTables.lean`. -/
+def PState.names : List (PState × String) :=
+  [(.close, "close"), (.methodBefore, "methodBefore"), (.method, "method"), (.pathBefore, "pathBefore"), (.path, "path"),
+   (.protoBefore, "protoBefore"), (.proto, "proto"), (.protoLF, "protoLF"), (.clientProtoBefore, "clientProtoBefore"),
+   (.clientProto, "clientProto"), (.statusCodeBefore, "statusCodeBefore"), (.statusCode, "statusCode"),
+   (.statusBefore, "statusBefore"), (.status, "status"), (.statusLF, "statusLF"), (.headerKeyBefore, "headerKeyBefore"),
+   (.headerValueLF, "headerValueLF"), (.headerKey, "headerKey"), (.headerValueBefore, "headerValueBefore"),
+   (.headerValue, "headerValue"), (.bodyContentLength, "bodyContentLength"), (.headerOverLF, "headerOverLF"),
+   (.chunkSizeBefore, "chunkSizeBefore"), (.chunkSize, "chunkSize"), (.chunkSizeLF, "chunkSizeLF"), (.chunkData, "chunkData"),
+   (.chunkDataCR, "chunkDataCR"), (.chunkDataLF, "chunkDataLF"), (.trValueLF, "trValueLF"), (.trKeyBefore, "trKeyBefore"),
+   (.trKey, "trKey"), (.trValueBefore, "trValueBefore"), (.trValue, "trValue"), (.tailCR, "tailCR"), (.tailLF, "tailLF")]
+def PState.all : List PState := PState.names.map (·.1)
+/-- value of the Go state constant -/
+def PState.num (s : PState) : Nat := PState.all.idxOf s
+
 inductive Ev
   | method (m : Bytes) | url (u : Bytes) | proto (p : Bytes) | status (code : Nat) (s : Bytes)
   | header (k v : Bytes) | contentLength (n : Int) | body (d : Bytes) | trailer (k v : Bytes) | complete
@@ -69,8 +85,9 @@ def isToken (c : UInt8) : Bool :=
 def toUpper (c : UInt8) : UInt8 := if isLower c then c - 32 else c
 def toLower (c : UInt8) : UInt8 := if isUpper c then c + 32 else c
 def str (s : String) : Bytes := s.toList.map ch
+/-- keys of `validMethods` (nbhttp/table.go), sorted -/
 def validMethods : List Bytes :=
-  ["OPTIONS","GET","HEAD","POST","PUT","DELETE","TRACE","CONNECT","PATCH","PRI"].map str
+  ["CONNECT","DELETE","GET","HEAD","OPTIONS","PATCH","POST","PRI","PUT","TRACE"].map str
 def isValidMethodChar (c : UInt8) : Bool := validMethods.any (·.contains (toUpper c))
 
 def SP : UInt8 := 32
